@@ -3,6 +3,7 @@
 -/
 import GraphiqModel.Model.StabTableau
 import GraphiqModel.Model.Convert
+import GraphiqModel.Model.CanonCheck
 import Driver.Proto
 import Driver.CmdTab
 namespace Graphiq.CmdStab
@@ -42,6 +43,10 @@ def canon (a : Args) : String :=
   match (stabOf a).canonicalForm with
   | .error e => s!"err {e}"
   | .ok t => s!"ok {showStab t}"
+
+/-- stab.iscanon n= x= z= r=: the verified shape checker (`isCanon_sound`) on a tableau, e.g. one the real
+    `canonical_form` returned -/
+def iscanon (a : Args) : String := s!"ok canon={b01 (stabOf a).isCanon}"
 
 def inv (a : Args) : String :=
   match (stabOf a).inverseCircuit with
@@ -105,6 +110,7 @@ def dispatch (cmd : String) (a : Args) : Option String :=
   match cmd with
   | "stab.rref" => some (rref a)
   | "stab.canon" => some (canon a)
+  | "stab.iscanon" => some (iscanon a)
   | "stab.inv" => some (inv a)
   | "stab.height" => some (height a)
   | "stab.ip" => some (ip a)
